@@ -209,6 +209,60 @@ pub enum RefOut {
     Unjudged(&'static str),
 }
 
+/// Every span the cell asks to be free of wire: (metal layer, (track start, track width) across, (from, to) along,
+/// true = blocked by an instance / false = cut), clipped to the outline. Independent of whether spans overlap.
+pub fn removed_spans(sd: &StackD, cell: &CellIn, children: &[ChildD], mode: Mode) -> Vec<(usize, (i64, i64), (i64, i64), bool)> {
+    let (px, py) = sd.prim;
+    let (xdb, ydb) = (cell.size.0 * px, cell.size.1 * py);
+    let mut out = vec![];
+    for li in 0..cell.metals.min(sd.layers.len()) {
+        let layer = &sd.layers[li];
+        let (span, breadth) = if layer.horiz { (xdb, ydb) } else { (ydb, xdb) };
+        let pitch = layer.pitch();
+        let nper = (breadth / pitch) as usize;
+        let nsig = layer.nsig();
+        for p in 0..nper {
+            let (lo, hi) = (pitch * p as i64, pitch * (p as i64 + 1));
+            let mut blocked: Vec<(i64, i64)> = vec![];
+            for i in &cell.insts {
+                let c = &children[i.child];
+                if c.metals <= li {
+                    continue;
+                }
+                let (w, h) = (c.size.0 * px, c.size.1 * py);
+                let (ox, oy) = (i.loc.0 * px, i.loc.1 * py);
+                let x = if i.rh { (ox - w, ox) } else { (ox, ox + w) };
+                let y = if i.rv { (oy - h, oy) } else { (oy, oy + h) };
+                let (per, along) = if layer.horiz { (y, x) } else { (x, y) };
+                if per.1 > lo && per.0 < hi {
+                    blocked.push(along);
+                }
+            }
+            let mut k = 0usize;
+            for (kind, start, width) in layer.period(p, true) {
+                for b in &blocked {
+                    out.push((li, (start, width), (b.0.max(0), b.1.min(span)), true));
+                }
+                if kind == Kind::Sig {
+                    let g = p * nsig + k;
+                    k += 1;
+                    for c in &cell.cuts {
+                        if c.0 == li && c.1 == g {
+                            if let Some(xl) = sd.layers.get(c.2) {
+                                if xl.horiz != layer.horiz {
+                                    let at = xl.center(c.3, mode.flip_aware);
+                                    out.push((li, (start, width), ((at - layer.cutsize / 2).max(0), (at + layer.cutsize / 2).min(span)), false));
+                                }
+                            }
+                        }
+                    }
+                }
+            }
+        }
+    }
+    out
+}
+
 /// [0, span] minus the removed spans; Err if two removed spans overlap with positive length.
 pub fn pieces(span: i64, removed: &[(i64, i64)], clip_low: bool) -> Result<Vec<(i64, i64)>, &'static str> {
     let mut r: Vec<(i64, i64)> = removed.to_vec();
@@ -549,7 +603,13 @@ pub fn stack_family() -> Vec<StackD> {
     // its index but not its place in odd periods
     let g3 = LayerD { horiz: h, spec: vec![e(Gap, 50), SpecD::Rep(vec![en(Sig, 100), en(Gap, 60)], 3), e(Gap, 70)], offset: 0, overlap: 0, cutsize: 40, flip: true };
     let g3v = LayerD { horiz: v, spec: vec![e(Gap, 30), e(Sig, 60), e(Gap, 40), e(Sig, 80), e(Gap, 50), e(Sig, 60), e(Gap, 80)], offset: 0, overlap: 0, cutsize: 40, flip: true };
-    f.push(StackD { name: "HVH three signals asymmetric+flip / three signals asymmetric+flip / gap-sig-gap", prim: (200, 300), layers: vec![g3, g3v, pat_b(h, 600)], vias });
+    f.push(StackD { name: "HVH three signals asymmetric+flip / three signals asymmetric+flip / gap-sig-gap", prim: (200, 300), layers: vec![g3, g3v, pat_b(h, 600)], vias: vias.clone() });
+    // cuts longer than the pitch of the crossing tracks: cuts at neighbouring crossings overlap
+    let mut wide_cut = pat_b(h, 600);
+    wide_cut.cutsize = 500;
+    let mut wide_cut_v = pat_a(v, 400);
+    wide_cut_v.cutsize = 700;
+    f.push(StackD { name: "HV gap-sig-gap cut size 500 / sig-gap cut size 700 (neighbouring cuts overlap)", prim: (200, 300), layers: vec![wide_cut, wide_cut_v], vias });
     f
 }
 
